@@ -454,13 +454,24 @@ class HintSane(object, metaclass=_HintSaneMetaclass):
         self.typearg_to_hint = typearg_to_hint
 
         # Hash identifying this object, precomputed for efficiency.
-        self._hash = hash((
-            hint,
-            hint_recursable_to_depth,
-            is_check_expr_cacheable,
-            is_hint_parent_pep484585_subclass,
-            typearg_to_hint,
-        ))
+        try:
+            self._hash = hash((
+                hint,
+                hint_recursable_to_depth,
+                is_check_expr_cacheable,
+                is_hint_parent_pep484585_subclass,
+                typearg_to_hint,
+            ))
+        # If this hint is unhashable (e.g., a PEP 593-compliant
+        # "typing.Annotated[...]" hint annotated by unhashable metadata), fall
+        # back to hashing the object identifier of this hint instead. Unhashable
+        # hints are unmemoizable and thus *NEVER* looked up by equality.
+        except TypeError:
+            self._hash = hash((
+                id(hint),
+                is_check_expr_cacheable,
+                is_hint_parent_pep484585_subclass,
+            ))
 
     # ..................{ DUNDERS                            }..................
     def __hash__(self) -> int:
